@@ -380,6 +380,24 @@ func errProvablyNonNil(v ssa.Value, at *ssa.BasicBlock, depth int) bool {
 	if depth > 6 {
 		return false
 	}
+	// functions with defer spill their results into cells before `rundefers`
+	// and return loads of those cells: look at what was stored in this block
+	if u, ok := v.(*ssa.UnOp); ok && u.Op == token.MUL {
+		if al, ok := u.X.(*ssa.Alloc); ok {
+			var last ssa.Value
+			for _, in := range at.Instrs {
+				if st, ok := in.(*ssa.Store); ok && st.Addr == ssa.Value(al) {
+					last = st.Val
+				}
+				if in == ssa.Instruction(u) {
+					break
+				}
+			}
+			if last != nil {
+				return errProvablyNonNil(last, at, depth+1)
+			}
+		}
+	}
 	if isNilConst(v) {
 		return false
 	}
@@ -1106,6 +1124,7 @@ func checkC06(p *Prog, r *Report) {
 	uf := ruleGateSeesChecks(p, m, r)
 	ruleChecksOnLoadPath(p, m, r, uf)
 	ruleOptionalBanner(p, m, r)
+	ruleHAFailClosed(p, r)
 	ruleAllowListedCommands(p, m, r, "R06.6")
 	ruleNoReflection(p, r)
 	r.Trusted = append(trustedCallGraph,
@@ -1417,4 +1436,68 @@ func ruleDoApproveVerb(p *Prog, r *Report) {
 		"ApproveOrCompare is unreachable when the verb is neither \"approve\" nor \"compare\"",
 		!seen[call.Block()] && verbs["approve"] && verbs["compare"],
 		"an unknown verb falls through to an approve run")
+}
+
+// ruleHAFailClosed: R06.8.
+func ruleHAFailClosed(p *Prog, r *Report) {
+	r.rule("R06.8", "The PAN-OS HA-state check fails closed: in the bool-valued function that the login closure tests (checkHA), `return true` never lies on the non-nil edge of an error test, and every `return true` is control dependent on a condition computed from the decoded reply of the device (enabled flag / local state), never reached unconditionally.")
+	fn := p.Fn("(*panos.State).checkHA")
+	if fn == nil {
+		r.fail("R06.8", "anchor|checkHA", "", "not found", "")
+		return
+	}
+	// taint: everything decoded from the reply
+	var src []ssa.Value
+	for _, cs := range callsOf(fn) {
+		if v := cs.In.Value(); v != nil && (isModFunc(cs.Static) || strings.HasSuffix(cs.calleeName(), ".Unmarshal")) {
+			src = append(src, v)
+		}
+	}
+	t := taintFrom(fn, src)
+	n := 0
+	for _, ret := range returnsOf(fn) {
+		if len(ret.Results) != 1 {
+			continue
+		}
+		bv, isC := constBool(ret.Results[0])
+		var vals []bool
+		if isC {
+			vals = []bool{bv}
+		}
+		if !isC {
+			// `return ha.State == "active"`: a comparison of decoded data: fine
+			if t[ret.Results[0]] {
+				n++
+				r.ok("R06.8", "ha-verdict-from-reply", p.ipos(ret), "verdict is a comparison of the decoded HA state")
+			} else {
+				r.fail("R06.8", "ha-verdict-from-reply", p.ipos(ret), "verdict does not derive from the device's reply", "")
+			}
+			continue
+		}
+		if !vals[0] {
+			continue // return false: fail closed
+		}
+		n++
+		edges := controllingEdges(ret.Block())
+		ok := len(edges) > 0
+		for _, e := range edges {
+			i := ifOf(e.b)
+			if x, nonNilWhenTrue, isNT := nilTest(i.Cond); isNT && types.TypeString(x.Type(), nil) == "error" {
+				errEdge := 0
+				if !nonNilWhenTrue {
+					errEdge = 1
+				}
+				if e.k == errEdge {
+					ok = false // return true on an error edge
+				}
+				continue
+			}
+			if !t[i.Cond] {
+				ok = false
+			}
+		}
+		r.add("R06.8", "ha-true-only-on-evidence", p.ipos(ret), "`return true` of the HA check depends on the decoded reply and is not on an error edge", ok,
+			"the HA check fails open: a device whose HA state cannot be determined is treated as active")
+	}
+	r.floor("R06.8", "positive verdicts of the HA check", n, 2)
 }
